@@ -21,7 +21,8 @@ Where the full statement is false of the code as it is, it is kept as a `def …
 Prop`, with the strongest `_partial` theorem (explicit side conditions) and a
 `_counterexample` from a concrete witness.  Helper lemmas live in
 CtyModel/Lemmas/{CoversBasic,CoversWeaken,OpsLogic,OpsCompare,OpsArith,OpsColl,
-OpsEquals,OpsIncludes,OpsAddSub,OpsDerived,OpsSets,OpsMul,OpsKnown,d01Ext,d01Round,d01Arith,d01Range,d01Mul,d01Side,d01Has,d01Len,d01EqObj,d01Fuel}.lean.
+OpsEquals,OpsIncludes,OpsAddSub,OpsDerived,OpsSets,OpsMul,OpsKnown,d01Ext,d01Round,d01Arith,d01Range,d01Mul,d01Side,d01Has,d01Len,d01EqObj,d01Fuel,
+d01bSets,d01bInf,d01bWhole,d01bSide}.lean.
 -/
 import CtyModel.Lemmas.OpsEquals
 import CtyModel.Lemmas.OpsIncludes
@@ -36,6 +37,10 @@ import CtyModel.Lemmas.d01Len
 import CtyModel.Lemmas.d01EqObj
 import CtyModel.Lemmas.d01Fuel
 import CtyModel.Lemmas.OpsFnsTieSound
+import CtyModel.Lemmas.d01bSets
+import CtyModel.Lemmas.d01bInf
+import CtyModel.Lemmas.d01bWhole
+import CtyModel.Lemmas.d01bSide
 namespace CtyModel
 namespace C01
 open Value
@@ -806,6 +811,168 @@ theorem in_scope_length_sound (o w r : Value) (h : D01.inScopeLength o w = true)
   rcases d with d | d
   · rw [ht] at d; simp [Ty.isDyn] at d
   · exact d
+
+/-! ## Second deepening (slice d01b): sets with members weakened in place, operands of
+object / map type replaced as a whole, the infinite ends of number ranges -/
+
+/-- HasElement, the set's MEMBERS weakened in place (at any depth, to unknowns of any
+refinement), the needle kept: the weakened call cannot fail and its answer admits the
+concrete one — including weakened sets that store MORE members than the set they stand
+for (`CoversX` on sets is a surjection from the stored members onto the concrete
+members: several stand-ins may coalesce).  A definite True comes from a stored member
+that `Equals` the needle; the member it stands for then `Equals` the needle too.  A
+definite False only comes from a wholly known set.  Members of a fragment type (`eqTy`:
+primitives, lists, tuples, nested; `wtAll`/`wt`: payloads as the type dictates, numbers
+integers).  `D01b.hashCoh` (decidable; the one fact about hashing, property C03's
+subject): a member that `Equals` the needle sits in the bucket the needle hashes to —
+in the concrete set and in the weakened set. -/
+theorem sound_hasElement_members_partial (s el ws r : Value) {e : Ty} {ids ids' : List Int} {vs wvs : List Payload}
+    {x : Payload} {h : Int}
+    (hs : s.unmark = ⟨.set e, .sset ids vs⟩) (hw : ws.unmark = ⟨.set e, .sset ids' wvs⟩) (hel : el.unmarkDeep = ⟨e, x⟩)
+    (he : eqTy e = true) (hvs : wtAll e vs = true) (hws : wtAll e wvs = true) (hx : wt e x = true)
+    (kx : x.whollyKnown = true) (kvs : Payload.whollyKnownL vs = true)
+    (hl : ids.length = vs.length) (hl' : ids'.length = wvs.length) (hc : CoversX ws s = true)
+    (hh : D01b.hashCoh e x h ids vs = true) (hh' : D01b.hashCoh e x h ids' wvs = true)
+    (ho : Value.hasElement s el (some h) = .ok r) : ∃ r', Value.hasElement ws el (some h) = .ok r' ∧ Covers r' r = true :=
+  D01b.hasElement_sound_members s el ws r hs hw hel he hvs hws hx kx kvs hl hl' hc hh hh' ho
+
+/-- the instance: `{1, 2}` stored as THREE members `{unknown ≥ 1, 2, unknown}` (two
+stand-ins coalesce); needle 2 is found (True, as in the concrete set); needle 1 is not
+found among the known members, and the answer is "unknown", which admits True.  All
+hypotheses of the theorem hold of it. -/
+theorem sound_hasElement_members_examples :
+    Value.hasElement ⟨.set .number, .sset [1, 2] [.n (Num.ofInt 1), .n (Num.ofInt 2)]⟩ (intVal 2) (some 2) = .ok (boolVal true) ∧
+    Value.hasElement ⟨.set .number, .sset [0, 2, 5] [.unk (.num .f (some ⟨Num.ofInt 1, true⟩) none), .n (Num.ofInt 2), .unk .unref]⟩
+      (intVal 2) (some 2) = .ok (boolVal true) ∧
+    Value.hasElement ⟨.set .number, .sset [0, 2, 5] [.unk (.num .f (some ⟨Num.ofInt 1, true⟩) none), .n (Num.ofInt 2), .unk .unref]⟩
+      (intVal 1) (some 1) = .ok unkBool ∧
+    CoversX ⟨.set .number, .sset [0, 2, 5] [.unk (.num .f (some ⟨Num.ofInt 1, true⟩) none), .n (Num.ofInt 2), .unk .unref]⟩
+      ⟨.set .number, .sset [1, 2] [.n (Num.ofInt 1), .n (Num.ofInt 2)]⟩ = true ∧
+    D01b.hashCoh .number (.n (Num.ofInt 2)) 2 [1, 2] [.n (Num.ofInt 1), .n (Num.ofInt 2)] = true ∧
+    D01b.hashCoh .number (.n (Num.ofInt 2)) 2 [0, 2, 5] [.unk (.num .f (some ⟨Num.ofInt 1, true⟩) none), .n (Num.ofInt 2), .unk .unref] = true ∧
+    wtAll .number [.unk (.num .f (some ⟨Num.ofInt 1, true⟩) none), .n (Num.ofInt 2), .unk .unref] = true :=
+  ⟨by rfl, by rfl, by rfl, by decide, by decide, by decide, by decide⟩
+
+/-- Equals on two sets of one type whose MEMBERS are weakened in place (stand-ins that
+coalesce included): the weakened call cannot fail, and — each weakened set being the set
+itself or holding a member that is not wholly known — its answer ("unknown" in the
+second case, `equals_set_never_definite`) admits the concrete answer.  A weakened set
+ALL of whose members are wholly known is the concrete set in every case cty can build
+(a set holds no two equivalent members, property C06); that case is the hypothesis
+`w = o`. -/
+theorem sound_equals_set_partial (o₁ o₂ w₁ w₂ r : Value) {e : Ty} {ix iy jx jy : List Int} {xs ys xs0 ys0 : List Payload}
+    (hk₁ : o₁.whollyKnown = true) (hk₂ : o₂.whollyKnown = true)
+    (he : eqTy e = true) (ht₁ : w₁.ty = .set e) (ht₂ : w₂.ty = .set e)
+    (hp₁ : w₁.v.stripMarks = .sset ix xs) (hp₂ : w₂.v.stripMarks = .sset iy ys)
+    (hq₁ : o₁.v.stripMarks = .sset jx xs0) (hq₂ : o₂.v.stripMarks = .sset jy ys0)
+    (hl₁ : ix.length = xs.length) (hl₂ : iy.length = ys.length)
+    (hwx : wtAll e xs = true) (hwy : wtAll e ys = true) (hwx0 : wtAll e xs0 = true) (hwy0 : wtAll e ys0 = true)
+    (hk : (w₁ = o₁ ∧ w₂ = o₂) ∨ Payload.whollyKnownL xs = false ∨ Payload.whollyKnownL ys = false)
+    (hc₁ : CoversX w₁ o₁ = true) (hc₂ : CoversX w₂ o₂ = true) (ho : Value.equals o₁ o₂ = .ok r) :
+    ∃ r', Value.equals w₁ w₂ = .ok r' ∧ Covers r' r = true := by
+  have k1 : Payload.whollyKnownL xs0 = true := by
+    have : o₁.v.stripMarks.whollyKnown = true := by rw [wk_stripMarks]; exact hk₁
+    rw [hq₁] at this; simpa [Payload.whollyKnown] using this
+  have k2 : Payload.whollyKnownL ys0 = true := by
+    have : o₂.v.stripMarks.whollyKnown = true := by rw [wk_stripMarks]; exact hk₂
+    rw [hq₂] at this; simpa [Payload.whollyKnown] using this
+  simp only [CoversX, CoversG, Bool.and_eq_true, hp₁, hp₂, hq₁, hq₂, Cov.coversP] at hc₁ hc₂
+  exact D01b.equals_sound_sets o₁ o₂ w₁ w₂ r he ht₁ ht₂ hp₁ hp₂ hl₁ hl₂ ⟨hwx, hwx0, k1, hc₁.2⟩ ⟨hwy, hwy0, k2, hc₂.2⟩ hk ho
+
+/-- the instance: `{1, 2}` against `{1, 2}` is True; with the first set stored as three
+members, two of them unknown, the answer is "unknown" -/
+theorem sound_equals_set_examples :
+    Value.equals ⟨.set .number, .sset [1, 2] [.n (Num.ofInt 1), .n (Num.ofInt 2)]⟩
+      ⟨.set .number, .sset [1, 2] [.n (Num.ofInt 1), .n (Num.ofInt 2)]⟩ = .ok (boolVal true) ∧
+    Value.equals ⟨.set .number, .sset [0, 2, 5] [.unk (.num .f (some ⟨Num.ofInt 1, true⟩) none), .n (Num.ofInt 2), .unk .unref]⟩
+      ⟨.set .number, .sset [1, 2] [.n (Num.ofInt 1), .n (Num.ofInt 2)]⟩ = .ok unkBool :=
+  ⟨by rfl, by rfl⟩
+
+/-- Equals with an operand of OBJECT type replaced AS A WHOLE by an unknown of its type
+(unrefined, or refined with nullness: `D01b.EqObjWhole`) — either operand or both, the
+other kept, weakened in place (`EqObjWeak`) or replaced as well: the answer is
+"unknown".  (Lists and tuples replaced as a whole are inside `sound_equals_partial`.) -/
+theorem sound_equals_object_whole_partial (o₁ o₂ w₁ w₂ r : Value) (hk₁ : o₁.whollyKnown = true) (hk₂ : o₂.whollyKnown = true)
+    (hf₁ : EqObjOperand o₁) (hf₂ : EqObjOperand o₂) (hty : o₁.ty = o₂.ty)
+    (hw₁ : EqObjWeak w₁ o₁ ∨ D01b.EqObjWhole w₁ o₁) (hw₂ : EqObjWeak w₂ o₂ ∨ D01b.EqObjWhole w₂ o₂)
+    (hc₁ : CoversX w₁ o₁ = true) (hc₂ : CoversX w₂ o₂ = true) (ho : Value.equals o₁ o₂ = .ok r) :
+    ∃ r', Value.equals w₁ w₂ = .ok r' ∧ Covers r' r = true :=
+  D01b.equals_sound_object_whole o₁ o₂ w₁ w₂ r hk₁ hk₂ hf₁ hf₂ hty hw₁ hw₂ hc₁ hc₂ ho
+
+/-- … of MAP type, where the unknown may also carry length bounds
+(`D01b.EqMapWhole`): the answer is "unknown", or False when the bounds exclude the
+length of the other map — and then the two concrete maps differ in length. -/
+theorem sound_equals_map_whole_partial (o₁ o₂ w₁ w₂ r : Value) (hk₁ : o₁.whollyKnown = true) (hk₂ : o₂.whollyKnown = true)
+    (hf₁ : EqMapOperand o₁) (hf₂ : EqMapOperand o₂) (hty : o₁.ty = o₂.ty)
+    (hw₁ : EqMapWeak w₁ o₁ ∨ D01b.EqMapWhole w₁ o₁) (hw₂ : EqMapWeak w₂ o₂ ∨ D01b.EqMapWhole w₂ o₂)
+    (hc₁ : CoversX w₁ o₁ = true) (hc₂ : CoversX w₂ o₂ = true) (ho : Value.equals o₁ o₂ = .ok r) :
+    ∃ r', Value.equals w₁ w₂ = .ok r' ∧ Covers r' r = true :=
+  D01b.equals_sound_map_whole o₁ o₂ w₁ w₂ r hk₁ hk₂ hf₁ hf₂ hty hw₁ hw₂ hc₁ hc₂ ho
+
+/-- instances: an object against an unknown object; a map of one element against "an
+unknown map of 2 to 3 elements" (False, and the map it stands for has two) -/
+theorem sound_equals_whole_examples :
+    Value.equals ⟨.object ["a"] [.number] [false], .smap ["a"] [.n (Num.ofInt 1)]⟩
+      ⟨.object ["a"] [.number] [false], .unk (.nullable .f)⟩ = .ok unkBool ∧
+    Value.equals ⟨.map .number, .smap ["k"] [.n (Num.ofInt 4)]⟩ ⟨.map .number, .unk (.coll .f 2 3)⟩ = .ok (boolVal false) ∧
+    Value.equals ⟨.map .number, .smap ["k"] [.n (Num.ofInt 4)]⟩
+      ⟨.map .number, .smap ["j", "k"] [.n (Num.ofInt 4), .n (Num.ofInt 4)]⟩ = .ok (boolVal false) ∧
+    CoversX ⟨.map .number, .unk (.coll .f 2 3)⟩ ⟨.map .number, .smap ["j", "k"] [.n (Num.ofInt 4), .n (Num.ofInt 4)]⟩ = true :=
+  ⟨by rfl, by rfl, by rfl, by decide⟩
+example : D01b.EqMapWhole ⟨.map .number, .unk (.coll .f 2 3)⟩ ⟨.map .number, .smap ["j", "k"] [.n (Num.ofInt 4), .n (Num.ofInt 4)]⟩ :=
+  ⟨rfl, _, rfl, rfl⟩
+example : D01b.EqObjWhole ⟨.object ["a"] [.number] [false], .unk (.nullable .f)⟩
+    ⟨.object ["a"] [.number] [false], .smap ["a"] [.n (Num.ofInt 1)]⟩ := ⟨rfl, _, rfl, rfl⟩
+
+/-- The infinite ends of number ranges: an unknown number refined WITHOUT a lower bound
+admits −∞ (and one without an upper bound +∞) — `ValueRange.Includes` does not answer
+False for it, `Equals` against it (either way round) is "unknown", and the specification
+`Covers` agrees.  `otherEndAbove` / `otherEndBelow` (decidable): the other end is absent
+or a bound the infinity does not reach — every finite bound.  (An absent bound reported
+as an EXCLUSIVE infinity would answer False: the seeded change
+C01-unbounded-number-range-end-reported-exclusive.) -/
+theorem absent_bound_admits_infinity (nl : Tri) (b : Option Bound) (hnl : nl ≠ .t) :
+    (D01b.otherEndAbove b = true →
+      includes ⟨.number, .num nl none b⟩ ⟨.number, .n (.inf true)⟩ = .ok none ∧
+      Covers ⟨.number, .unk (.num nl none b)⟩ ⟨.number, .n (.inf true)⟩ = true ∧
+      Value.equals ⟨.number, .unk (.num nl none b)⟩ ⟨.number, .n (.inf true)⟩ = .ok unkBool ∧
+      Value.equals ⟨.number, .n (.inf true)⟩ ⟨.number, .unk (.num nl none b)⟩ = .ok unkBool) ∧
+    (D01b.otherEndBelow b = true →
+      includes ⟨.number, .num nl b none⟩ ⟨.number, .n (.inf false)⟩ = .ok none ∧
+      Covers ⟨.number, .unk (.num nl b none)⟩ ⟨.number, .n (.inf false)⟩ = true ∧
+      Value.equals ⟨.number, .unk (.num nl b none)⟩ ⟨.number, .n (.inf false)⟩ = .ok unkBool ∧
+      Value.equals ⟨.number, .n (.inf false)⟩ ⟨.number, .unk (.num nl b none)⟩ = .ok unkBool) := by
+  refine ⟨fun h => ?_, fun h => ?_⟩
+  · have hi := D01b.includes_no_lower_bound nl b hnl h
+    have he := D01b.equals_unknown_number_of_includes (.num nl none b) (.inf true) (by simp) hi
+    exact ⟨hi, D01b.covers_no_lower_bound nl b hnl h, he.1, he.2⟩
+  · have hi := D01b.includes_no_upper_bound nl b hnl h
+    have he := D01b.equals_unknown_number_of_includes (.num nl b none) (.inf false) (by simp) hi
+    exact ⟨hi, D01b.covers_no_upper_bound nl b hnl h, he.1, he.2⟩
+
+/-- instances: "a number ≤ 5" against −∞ and "a number > 0" against +∞ are unknown; a
+range that HAS the bound on that side still excludes the infinity -/
+theorem absent_bound_examples :
+    D01b.otherEndAbove (some ⟨Num.ofInt 5, true⟩) = true ∧ D01b.otherEndBelow (some ⟨Num.ofInt 0, false⟩) = true ∧
+    Value.equals ⟨.number, .unk (.num .u none (some ⟨Num.ofInt 5, true⟩))⟩ ⟨.number, .n (.inf true)⟩ = .ok unkBool ∧
+    Value.equals ⟨.number, .unk (.num .f (some ⟨Num.ofInt 0, false⟩) none)⟩ ⟨.number, .n (.inf false)⟩ = .ok unkBool ∧
+    Value.equals ⟨.number, .unk (.num .f (some ⟨Num.ofInt 0, false⟩) none)⟩ ⟨.number, .n (.inf true)⟩ = .ok (boolVal false) :=
+  ⟨by decide, by decide, by rfl, by rfl, by rfl⟩
+
+/-- the same for HasElement with the needle kept (`judge.c01.scopeHas`):
+`D01b.inScopeHasMembers` (CtyModel/d01bSide.lean, executable, core-only) collects EVERY
+hypothesis of `sound_hasElement_members_partial`; the harness asks the driver for it on
+every paired HasElement run whose needle is kept and that is outside
+`sound_hasElement_partial`. -/
+theorem in_scope_hasElement_members_sound (s el ws r : Value) (eh : Option Int)
+    (h : D01b.inScopeHasMembers s el ws eh = true) (ho : Value.hasElement s el eh = .ok r) :
+    ∃ r', Value.hasElement ws el eh = .ok r' ∧ Covers r' r = true :=
+  D01b.inScopeHasMembers_sound s el ws r eh h ho
+
+/-- the predicate holds of the three-member stand-in for `{1, 2}` above -/
+example : D01b.inScopeHasMembers ⟨.set .number, .sset [1, 2] [.n (Num.ofInt 1), .n (Num.ofInt 2)]⟩ (intVal 2)
+    ⟨.set .number, .sset [0, 2, 5] [.unk (.num .f (some ⟨Num.ofInt 1, true⟩) none), .n (Num.ofInt 2), .unk .unref]⟩ (some 2) = true := by
+  decide
 
 /-! ## Non-vacuity -/
 example : Weaken ⟨.number, .n (Num.ofInt 5)⟩ ⟨.number, .unk (.num .f (some ⟨Num.ofInt 5, true⟩) none)⟩ :=
